@@ -472,6 +472,9 @@ def write_evidence(res: Result, nviol):
     }
     os.makedirs(os.path.join(VERIF, 'evidence'), exist_ok=True)
     evdir = os.path.join(VERIF, 'evidence') if not os.environ.get('PG_REPLAY_TAG') else os.path.join(WORK, 'evidence_' + os.environ['PG_REPLAY_TAG'])
+    if res.proof is None:
+        # a debugging run without the proof step (--no-proof) never overwrites the evidence of a full run
+        evdir = os.path.join(WORK, 'evidence_noproof')
     os.makedirs(evdir, exist_ok=True)
     with open(os.path.join(evdir, f'{res.pid}.json'), 'w') as fh:
         json.dump(ev, fh, indent=1, default=str)
